@@ -15,7 +15,7 @@ from .c12 import mutate_tree
 
 LEVEL = "exploration"
 SHARDS = {"quick": 1, "thorough": 16}
-REQUIRED = ("unpack_compared", "pack_compared", "both_fail_compared", "struct_runs_generated", "illtyped_pack_compared",
+REQUIRED = ("modify_after_unpack_compared", "unpack_compared", "pack_compared", "both_fail_compared", "struct_runs_generated", "illtyped_pack_compared",
             "variants_compared")
 MIN_NONTRIVIAL = 150
 RULE = {
@@ -150,6 +150,57 @@ def compare_pack(run, bench, variants, pv, desc, illtyped=False):
                            "generated_module": bench.loaded.generated_source(fam["root"], v)}, None)
 
 
+def modify_after_unpack(run, bench, variants, raw, off, pv, rng):
+    """Parse the same input under every variant, apply the same attribute assignments to each parsed packet,
+    serialize, and compare with the generic variant (state kept by descriptors / bit groups between unpack and pack)."""
+    fam = bench.fam
+    decl = fam["decls"][fam["root"]]
+    edits = []
+    for f in decl["fields"]:
+        if "rep" in f or "opt" in f or "describe" in f or f["t"] not in ("int", "data", "bits"):
+            continue
+        v = pv.vals.get(f["name"])
+        tracked = any(g.get("describe", {}).get("of") == f["name"] for g in decl["fields"])
+        if f["t"] == "data" and f["mode"] == "dyn" and tracked and isinstance(v, bytes):
+            edits.append((f["name"], v + b"zz"))
+            edits.append((f["name"], v[:-1]))
+        elif f["t"] == "bits" and isinstance(v, int) and v:
+            edits.append((f["name"], v & (v - 1)))
+        elif f["t"] == "int" and not f.get("hint") and isinstance(v, int) and v > 0:
+            edits.append((f["name"], v - 1))
+    rng.shuffle(edits)
+    for name, newv in edits[:3]:
+        outs = {}
+        for v in variants:
+            r = harness.lib_unpack(bench.root(v), raw, off)
+            if r.status != "ok":
+                outs[v] = ("unpack-" + r.status,)
+                continue
+            try:
+                setattr(r.pkt, name, newv)
+            except Exception as e:
+                outs[v] = ("setattr-raised", type(e).__name__)
+                continue
+            pr = harness.lib_pack(r.pkt)
+            outs[v] = ("ok", pr.pkt) if pr.status == "ok" else (pr.status,)
+            try:
+                outs[v] += (monitors.pkt_to_pv(fam, fam["root"], r.pkt).to_json(),)
+            except monitors.Unreadable:
+                pass
+        ref = outs["g"]
+        for v in variants:
+            if v == "g" or "timeout" in outs[v] or "timeout" in ref:
+                continue
+            run.count("modify_after_unpack_compared")
+            run.case(key=(bench.skeleton, v, "m", ref[0]), nontrivial=True)
+            if outs[v] != ref:
+                run.violation("after unpack -> assign a field -> pack the generated variant differs from the generic interpretation",
+                              {"source": render.family_src(fam, {"g": variants["g"], v: variants[v]}), "variant": v, "options": variants[v],
+                               "raw": b2j(raw), "offset": off, "assigned": {name: model.val_json(newv)}, "generic": ref, "generated": outs[v],
+                               "generated_module": bench.loaded.generated_source(fam["root"], v)}, None)
+                return
+
+
 def run(run):
     shard, nshards = run.shard
     rng = rng_for(run.seed, "c03", shard)
@@ -181,6 +232,7 @@ def run(run):
                 continue
             pv = ref[1]
             compare_pack(run, bench, variants, pv, "parsed value tree")
+            modify_after_unpack(run, bench, variants, raw, off, pv, rng)
             st, mr = harness.model_parse(fam, raw, off)
             used = raw[:mr.trace.extent] if st == "ok" and mr.trace.extent <= len(raw) else raw
             for label, t in workloads.truncations(used, start=off, every=2):
